@@ -102,7 +102,16 @@ class TimeoutDriver:
             drv.fn_state = "cancelled"
             raise asyncio.CancelledError()
 
-        wrapped = timeout(float(self.T))(decoyed(fn))
+        # what is wrapped is a plain function that checks its arguments and then returns the coroutine (a validating front
+        # is as good a `Callable[..., Coroutine]` as an `async def`): a call it rejects ends with that rejection, at once
+        self.REJECT = Err("rejected")
+
+        def front(a, *, k):
+            if a != 1:
+                raise drv.REJECT
+            return fn(a, k=k)
+
+        wrapped = timeout(float(self.T))(decoyed(front))
         # the wrapper object is used once before the call under test (a call that ends normally at once): nothing of
         # that first call - a timer, a result, a callback - may be left to influence the second one
         self.warmup = "first"
@@ -116,6 +125,17 @@ class TimeoutDriver:
         loop.quiesce()
         self.warm_ok = self.warm_ok and first.done() and not first.cancelled() and first.exception() is None \
             and first.result() == "warm"
+        # ... then a call the front rejects: the caller gets the rejection, nothing of that call stays behind either
+
+        async def rejected():
+            try:
+                await wrapped(0, k=2)
+            except BaseException as e:  # noqa: BLE001
+                return e
+
+        rej = loop.create_task(rejected())
+        loop.quiesce()
+        self.warm_ok = self.warm_ok and rej.done() and not rej.cancelled() and rej.result() is self.REJECT
         # ... and a second call through the same wrapper overlaps the call under test: it starts before it and ends
         # (normally) right after the call under test has started - two calls share nothing but the wrapped function
         self.warmup = "bystander"
